@@ -196,6 +196,18 @@ Section Handlers.
         (upd_user u (fun x => mkU (u_status x) (u_stats x) true) s, ev LPrivilegedUserAdded None (Some u))
     end.
 
+  (* The same handlers with _on_operator_granted as proposed_fixes/F24.diff makes it
+     (operators.add(own name)); used only by the theorem C19_fold_if_repaired. *)
+  Definition apply_msg_repaired (s : state) (m : msg) : state * list event :=
+    match m with
+    | OpGrantedM r =>
+        let s1 := upd_room r true (fun x => x) s in
+        let s2 := touch_user me s1 in
+        (upd_room r true (fun x => set_ops (sadd me (r_ops x)) x) s2, ev LOperatorGranted (Some r) None)
+    | _ => apply_msg s m
+    end.
+  Definition fold_repaired (s : state) (ms : list msg) : state := fold_left (fun s m => fst (apply_msg_repaired s m)) ms s.
+
   Fixpoint run (s : state) (ms : list msg) : state * list (list event) :=
     match ms with
     | [] => (s, [])
